@@ -115,7 +115,10 @@ class Gen:
         if r < 0.6:
             return "%s %s %s" % (self.expr(sc, depth + 1, avoid), self.pick(["+", "*", "<", "and"]), self.expr(sc, depth + 1, avoid))
         if r < 0.8:
-            return self.call(sc, depth, avoid)
+            c = self.call(sc, depth + 2, avoid)
+            if "'" not in c and '"' not in c and "\n" not in c and self.chance(0.25):
+                return "f'{%s} %s'" % (c, self.pick(V))      # a call (with keyword arguments) inside a replacement field
+            return c
         if r < 0.9:
             return "(%s, %s)" % (self.expr(sc, depth + 1, avoid), self.expr(sc, depth + 1, avoid))
         return "[%s]" % self.expr(sc, depth + 1, avoid)
